@@ -435,7 +435,7 @@ def emptiness_edges(body, pred):
 
 
 VALUE_PASS = re.compile(r"(::deref$|::deref_mut$|::as_ref$|::as_mut$|::borrow$|::borrow_mut$|::clone$|::into$|::from$|::as_str$|::as_mut_str$|"
-                        r"::to_owned$|::to_string$|::as_bytes$|core::fmt::rt::Argument.*::new_\w+$|core::fmt::Arguments.*::new\w*$|alloc::fmt::format$)")
+                        r"::to_owned$|::to_string$|::as_bytes$|Try>::branch$|Try::branch$|core::fmt::rt::Argument.*::new_\w+$|core::fmt::Arguments.*::new\w*$|alloc::fmt::format$)")
 OPTION_SELECT = re.compile(r"option::Option::<T>::(map_or|map_or_else|unwrap_or|unwrap_or_else)$")
 CLOSURE_TY = re.compile(r"^C\{(.+?)\|")
 
@@ -484,7 +484,7 @@ def value_leaves(cg, body, operand, classify_call=None, field=None, _seen=None, 
                 leaf = classify_call(s, fld) if classify_call else None
                 if leaf is not None:
                     out.add(leaf)
-                elif VALUE_PASS.search(cal):
+                elif VALUE_PASS.search(cal) or (cal.endswith("::index") and any("RangeFull" in str(g) for g in s.get("ga", []))):
                     for a in s["args"]:
                         op_leaves(a, fld, blk)
                 elif OPTION_SELECT.search(cal) and len(s["args"]) >= 2:
